@@ -95,4 +95,27 @@ Holds(op, arg, v) ==
 RECURSIVE Pow2(_)
 Pow2(n) == IF n = 0 THEN 1 ELSE 2 * Pow2(n - 1)
 InCidr(a, base, plen) == (a \div Pow2(32 - plen)) = (base \div Pow2(32 - plen))     \* 24 <= plen <= 32
+(***************************************************************************)
+(* Capturing operators: text i of the match (0 = the whole match, then the *)
+(* groups / the phrases found, in order) is stored in TX.i for i in 0..9;  *)
+(* anything beyond the tenth text is dropped; a group that takes no part   *)
+(* in the match leaves its TX.i empty.                                     *)
+(***************************************************************************)
+CaptureTX(texts) == [i \in 1..10 |-> IF i <= Len(texts) THEN texts[i] ELSE << >>]
+CapLetters == <<97, 98, 99, 100, 101, 102, 103, 104, 105, 106, 107, 108>>
+RECURSIVE CatSeq(_)
+CatSeq(ss) == IF ss = << >> THEN << >> ELSE Head(ss) \o CatSeq(Tail(ss))
+\* @rx with n one-letter groups (a)(b)(c)..; with opt the even groups are optional and absent from the input
+RxCapCase(n, opt) ==
+  LET absent(k) == opt /\ k % 2 = 0
+      grp(k) == <<40, CapLetters[k], 41>> \o (IF absent(k) THEN <<63>> ELSE << >>)
+      inp == CatSeq([k \in 1..n |-> IF absent(k) THEN << >> ELSE <<CapLetters[k]>>])
+      texts == <<inp>> \o [k \in 1..n |-> IF absent(k) THEN << >> ELSE <<CapLetters[k]>>]
+  IN [op |-> "rx", arg |-> CatSeq([k \in 1..n |-> grp(k)]), in |-> inp, tx |-> CaptureTX(texts), used |-> IF n + 1 < 10 THEN n + 1 ELSE 10]
+\* @pm with n two-letter phrases pa pb pc .. all present in the input, in order
+PmCapCase(n) ==
+  LET ph(k) == <<112, CapLetters[k]>>
+  IN [op |-> "pm", arg |-> CatSeq([k \in 1..n |-> ph(k) \o (IF k < n THEN <<32>> ELSE << >>)]),
+      in |-> CatSeq([k \in 1..n |-> <<45>> \o ph(k)]), tx |-> CaptureTX([k \in 1..n |-> ph(k)]), used |-> IF n < 10 THEN n ELSE 10]
+CapTable == {RxCapCase(n, o) : n \in 0..12, o \in BOOLEAN} \cup {PmCapCase(n) : n \in 1..12}
 =============================================================================
